@@ -141,3 +141,59 @@ Proof.
     exists c. repeat split; auto. apply (targets_spec _ _ _ ps0); assumption.
   - intros c a Hc P W. apply E. right. exists c. repeat split; auto. apply (targets_spec _ _ _ ps0); assumption.
 Qed.
+
+(* ------------------------------------------------------------------ no duplicates *)
+(* containsAdvertisement keeps at most one advertisement of every class: the L2 advertisements
+   of an accepted pool are pairwise different (up to l2adv_eqb), i.e. p_l2 is a set *)
+Lemma l2adv_eqb_sym a b : l2adv_eqb a b = l2adv_eqb b a.
+Proof.
+  destruct (l2adv_eqb a b) eqn:E, (l2adv_eqb b a) eqn:E'; try reflexivity.
+  - apply l2adv_eqb_spec in E. assert (l2adv_eqb b a = true) by (apply l2adv_eqb_spec; intuition congruence). congruence.
+  - apply l2adv_eqb_spec in E'. assert (l2adv_eqb a b = true) by (apply l2adv_eqb_spec; intuition congruence). congruence.
+Qed.
+
+Definition l2_distinct (p : pool) : Prop := ForallOrdPairs (fun a b => l2adv_eqb a b = false) (p_l2 p).
+
+Lemma add_l2_distinct a p : l2_distinct p -> l2_distinct (add_l2 a p).
+Proof.
+  unfold l2_distinct, add_l2. intros H. destruct (existsb (l2adv_eqb a) (p_l2 p)) eqn:X; [assumption|].
+  cbn [p_l2]. apply FOP_snoc. split; [assumption|]. apply Forall_forall. intros y Hy.
+  rewrite l2adv_eqb_sym. apply (proj1 (existsb_false _ _) X). assumption.
+Qed.
+
+Lemma upd_l2_distinct n a ps : Forall l2_distinct ps -> Forall l2_distinct (upd_pool n (add_l2 a) ps).
+Proof.
+  intros H. unfold upd_pool. apply Forall_forall. intros q Hq. apply in_map_iff in Hq.
+  destruct Hq as [p [<- Hp]]. rewrite Forall_forall in H. destruct (p_name p =? n); [apply add_l2_distinct|]; auto.
+Qed.
+
+Lemma set_l2_distinct crs nodes advs : forall ps ps', set_l2 crs nodes advs ps = Some ps' ->
+  Forall l2_distinct ps -> Forall l2_distinct ps'.
+Proof.
+  induction advs as [|c r IH]; intros ps ps'; cbn [set_l2]; [intros [= <-]; auto|].
+  destruct (parse_l2 nodes c) as [a|]; [|discriminate]. intros H D. apply (IH _ _ H). clear H IH.
+  generalize (targets crs (l2_pools c) (l2_psels c) ps). intros ts. revert ps D.
+  induction ts as [|n ts IHt]; intros ps D; cbn [fold_left]; [assumption|].
+  apply IHt. apply upd_l2_distinct. assumption.
+Qed.
+
+Theorem l2_no_duplicates iter r out p : pools_for iter r = Some out -> In p (po_pools out) -> l2_distinct p.
+Proof.
+  unfold pools_for.
+  destruct (pools_loop _ _ _ _ _) as [ps0|] eqn:L; [|discriminate].
+  destruct (set_l2 _ _ _ _) as [ps1|] eqn:S1; [|discriminate].
+  destruct (set_bgp _ _ _ _) as [ps2|] eqn:S2; [|discriminate].
+  intros [= <-] Hp. cbn [po_pools] in Hp. apply (Permutation_in _ (ksort_perm p_name ps2)) in Hp.
+  pose proof (set_bgp_grows _ _ _ _ _ S2) as G2.
+  destruct (Forall2_in_r _ _ _ _ G2 Hp) as [p1 [Hp1 (_ & L2 & _)]].
+  unfold l2_distinct. rewrite <- L2.
+  assert (D1 : Forall l2_distinct ps1).
+  { apply (set_l2_distinct _ _ _ _ _ S1).
+    destruct (pools_loop_inv _ _ _ _ _ _ L eq_refl) as (news & En & F & _).
+    { split; [constructor|split; constructor]. }
+    { constructor. }
+    cbn [app] in En. subst news. apply Forall_forall. intros q Hq.
+    destruct (Forall2_in_r _ _ _ _ F Hq) as [c [_ P]]. apply parse_pool_spec in P.
+    unfold l2_distinct. destruct P as (_ & _ & _ & _ & -> & _). constructor. }
+  rewrite Forall_forall in D1. apply D1. assumption.
+Qed.
